@@ -174,6 +174,15 @@ def c19(tier):
     ]
 
 
+def c08(tier):
+    q = [_ob("H-results/2x1x1", "harness.h_results", "h_results", dict(runners=2, appends=1, rounds=1), **_HO),
+         _ob("H-results/1x2x2", "harness.h_results", "h_results", dict(runners=1, appends=2, rounds=2), **_HO)]
+    if tier == "quick":
+        return q
+    return q + [_ob("H-results/2x2x1-locks", "harness.h_results", "h_results", dict(runners=2, appends=2, rounds=1, file_ops=False),
+                    **_HO)]
+
+
 def obligations(prop, tier):
     table = {
         "C01": lambda t: k_batch(t) + k_queue(t) + h_submit(t),
@@ -183,6 +192,7 @@ def obligations(prop, tier):
         "C05": lambda t: k_batch(t) + h_submit(t),
         "C06": lambda t: k_batch(t) + k_queue(t) + h_submit(t),
         "C07": lambda t: k_batch(t) + h_submit(t) + h_dry(t),
+        "C08": c08,
         "C09": h_submit,
         "C12": h_lost,
         "C13": c13,
